@@ -610,7 +610,7 @@ func genBip32(g *Gen) {
 		b32emitPath(g, "seed-len", b32rnd(r, n), []uint32{b32rndIdx(r)})
 	}
 	// ---- targeted: parents whose scalar has leading zero bytes (D4)
-	nShort := g.Scale(24, 400)
+	nShort := g.Scale(80, 1500)
 	for s := 0; s < nShort; s++ {
 		seed := b32rnd(r, 16+r.Intn(49))
 		o := b32newOrc()
@@ -654,7 +654,7 @@ func genBip32(g *Gen) {
 		}
 	}
 	// ---- short chains: a short-scalar child of a short-scalar parent
-	for s := 0; s < g.Scale(3, 30); s++ {
+	for s := 0; s < g.Scale(6, 60); s++ {
 		seed := b32rnd(r, 32)
 		o := b32newOrc()
 		m := o.refMaster(seed)
@@ -675,7 +675,7 @@ func genBip32(g *Gen) {
 		b32emitPath(g, "short-chain", seed, []uint32{i, j, b32rndIdx(r) & 0x7fffffff, b32rndIdx(r) | b32H})
 	}
 	// ---- random seeds and paths up to depth 6, private and public routes
-	nRand := g.Scale(1500, 40000)
+	nRand := g.Scale(4000, 120000)
 	for s := 0; s < nRand; s++ {
 		seed := b32rnd(r, 16+r.Intn(49))
 		depth := r.Intn(7)
@@ -766,7 +766,7 @@ func genBip32(g *Gen) {
 	// ---- single-byte corruptions of the 82 serialised bytes (exhaustive over positions; values sampled in
 	//      the quick tier, exhaustive for the first keys in the thorough tier) and single-character
 	//      corruptions of the base58 string
-	nExh := g.Scale(0, 3)
+	nExh := g.Scale(0, 6)
 	for ki, s := range sampleKeys {
 		if ki >= g.Scale(6, 12) {
 			break
@@ -824,7 +824,7 @@ func genBip32(g *Gen) {
 			g.Op("b58-exh", "b58e %s", hexTok([]byte{byte((v - 256) >> 8), byte(v - 256)}))
 		}
 	}
-	for t := 0; t < g.Scale(3000, 60000); t++ {
+	for t := 0; t < g.Scale(5000, 150000); t++ {
 		n := r.Intn(100)
 		b := b32rnd(r, n)
 		z := 0
